@@ -752,3 +752,12 @@ def check_alloc_only_heap(rep, model, E, RULE):
                     done.add(k)
                     rep.check(is_str is True and heap, RULE, ACT, f"{cl}: {e.kind} only on a heap string [STR={is_str}, heap={heap}]",
                               f"`{e.text.strip()}` can be emitted for an output that is not a heap-allocated string (raw outputs are scalars: free() of an integer member)")
+
+
+_run_l05 = run
+
+
+def run(ctx, rep, tier):
+    _run_l05(ctx, rep, tier)
+    from .shared import delegate
+    delegate(ctx, rep, tier, "C05", ("C05.l",), "C03.k", "the input pointer is never advanced twice for one byte (early advance for a yield + re-dispatch by an overflowing append): feed() would read past `end`")
